@@ -31,7 +31,7 @@ RULE = ("layer 1/2: every rooted tree of order <= 8 (200 trees, exhaustive) x {a
         "coarsest-resolution error is above the rounding floor; distinct by (tree, entry point) resp. full instance")
 ASSUMPTIONS = [
     "fixed-step order: the better of the two finest pairwise log2 error ratios over step halvings >= p - 0.5 (coarser pairs are pre-asymptotic), using only resolutions with >= 8 steps and errors in [1e-11, 1e-2]*scale; fewer than 2 ratios => counted trivial, never failed",
-    "adaptive accuracy (at tol and tol/100; when the error at tol is >= the tolerance itself it must also drop >= 3x at tol/100): error at every requested time <= 200*max(1, r_scipy)*(rtol*|y|+atol) (the RMS error norm is diluted ~3.6x by the 35 constant parameter components of the template) where r_scipy is SciPy's own error ratio for the same method family on the same instance, instances with ||J||*T <= 6",
+    "adaptive accuracy (at tol and tol/100; when the error at tol is >= the tolerance itself it must also drop >= 1.5x at tol/100): error at every requested time <= 200*max(1, r_scipy)*(rtol*|y|+atol) (the RMS error norm is diluted ~3.6x by the 35 constant parameter components of the template) where r_scipy is SciPy's own error ratio for the same method family on the same instance, instances with ||J||*T <= 6",
     "reference solutions: SciPy DOP853 at rtol=atol=1e-13 on an independently written NumPy field",
 ]
 
@@ -266,10 +266,22 @@ def eval_ode(case, ctx):
     p = case["order"]
     nonlin = case["kind"] != "linear-forced"
     if case["method"] == "fixed":
-        # observed order from step halving on uniform grids with N, 2N, 4N, ... steps
-        tfin = np.array([0.0, T])
-        ref = _ref(case, tfin)
-        if ref is None or not np.all(np.isfinite(ref)) or np.max(np.abs(ref)) > 50:
+        # observed order from step halving on uniform grids with N, 2N, 4N, ... steps.  An instance that is
+        # "too easy" (error at 8 steps already tiny) reaches the rounding floor while still pre-asymptotic, so the
+        # span is doubled until the 8-step error is >= 1e-4*scale (or 8x the drawn span).
+        integ0 = RungeKutta(order=p)
+        ref = None
+        for mult in (1.0, 2.0, 4.0, 8.0):
+            Tm = case["T"] * mult
+            r = _ref(dict(case, T=Tm), np.array([0.0, Tm]))
+            if r is None or not np.all(np.isfinite(r)) or np.max(np.abs(r)) > 50:
+                break
+            T = Tm; ref = r
+            s8 = integ0.integrate(sysm, y0.copy(), np.linspace(0.0, T, 9))
+            e8 = float(np.max(np.abs(s8.states[-1][:3] - ref[-1])))
+            if not np.isfinite(e8) or e8 >= 1e-4 * max(1.0, float(np.max(np.abs(ref[-1])))):
+                break
+        if ref is None:
             ctx.case(cls="ode:reference-unusable")
             return
         scale = max(1.0, float(np.max(np.abs(ref[-1]))))
@@ -342,7 +354,7 @@ def eval_ode(case, ctx):
     if not ratio <= K:
         ctx.fail("error-exceeds-tolerance-multiple:adaptive%d" % p, case,
                  "max error/(rtol|y|+atol) = %.3g at tol=%g (SciPy %s: %.3g; allowed %.3g)" % (ratio, tol, fam, r_scipy, K))
-    elif ratio >= 1.0 and emax1 > 1e3 * floor and not emax2 <= max(emax1 / 3.0, 10 * floor):
+    elif ratio >= 1.0 and emax1 > 1e3 * floor and not emax2 <= max(emax1 / 1.5, 10 * floor):
         ctx.fail("error-does-not-shrink-with-tolerance:adaptive%d" % p, case,
                  "error %.3g at tol=%g but %.3g at tol=%g" % (emax1, tol, emax2, tol * 1e-2))
 
@@ -374,6 +386,14 @@ def eval_ham(case, ctx):
     scale = max(1.0, float(np.max(np.abs(ref))))
     if case["method"] == "fixed":
         integ = RungeKutta(order=p)
+        for mult in (2.0, 4.0, 8.0):
+            s8 = integ.integrate(hs, x0.copy(), np.linspace(0.0, T, 9))
+            e8 = float(np.max(np.abs(s8.states[-1] - ref)))
+            if not np.isfinite(e8) or e8 >= 1e-4 * scale:
+                break
+            T = case["T"] * mult
+            ref = hamtools.ref_flow(KC, x0, [0.0, T])[-1]
+            scale = max(1.0, float(np.max(np.abs(ref))))
         good = []
         N = 2
         while N <= 1024:
